@@ -497,19 +497,58 @@ def _snap_out(o):
     return o
 
 
+GRAMMAR_EDITS = ["GR", "GN", "GA", "GD", "GQ"]
+
+
+def _grammar_edit(d, op):
+    """Edit a grammar of the discipline in place (the edits a user or a wrapper performs after construction).
+
+    GR restrict a grammar to a strict subset (the output grammar when it has >= 2 names, else the input grammar)
+    GN rename the first input                      GA add an input name with a default value
+    GD replace the default value of the first input with a default   GQ make the first required input optional
+    """
+    ig, og = d.io.input_grammar, d.io.output_grammar
+    if op == "GR":
+        g = og if len(og) >= 2 else ig
+        names = list(g.keys())
+        if len(names) < 2:
+            raise ValueError("nothing to restrict")
+        g.restrict_to(names[:-1])
+        return {"grammar": "output" if g is og else "input", "kept": sorted(names[:-1])}
+    names = list(ig.keys())
+    if op == "GN":
+        ig.rename_element(names[0], names[0] + "_c20r")
+    elif op == "GA":
+        ig.update_from_names(["c20_added"])
+        ig.defaults["c20_added"] = np.array([1.5])
+    elif op == "GD":
+        name = next(k for k, v in ig.defaults.items() if isinstance(v, np.ndarray) and v.dtype.kind == "f")
+        ig.defaults[name] = ig.defaults[name] * 1.5 + 0.25
+    elif op == "GQ":
+        ig.required_names.discard(sorted(ig.required_names)[0])
+    else:
+        raise ValueError(op)
+    return {"names": sorted(ig.keys()), "required": sorted(ig.required_names)}
+
+
+def _with_residuals(d, out):
+    """The outputs of an execution, plus the residual history of an MDA (its length is the number of iterations)."""
+    rh = getattr(d, "residual_history", None)
+    if rh is not None:
+        out = dict(out)
+        out["c20::residual_history"] = np.array(list(rh), dtype=float)
+    return out
+
+
 def _do(d, op, V, lin):
     """Apply one operation of the alphabet to one twin -> ('ok', result) | ('raise', ExceptionType, text)."""
     try:
-        if op == "E1":
-            return ("ok", _snap_out(d.execute(_copy_inputs(V[0]))))
-        if op == "E2":
-            return ("ok", _snap_out(d.execute(_copy_inputs(V[1]))))
-        if op == "E3":
-            return ("ok", _snap_out(d.execute(_copy_inputs(V[2]))))
-        if op == "L1":
-            return ("ok", _snap_out(_linearize(d, _copy_inputs(V[0]), lin)))
-        if op == "L3":
-            return ("ok", _snap_out(_linearize(d, _copy_inputs(V[2]), lin)))
+        if op[0] == "E":
+            return ("ok", _with_residuals(d, _snap_out(d.execute(_copy_inputs(V[int(op[1]) - 1])))))
+        if op[0] == "L":
+            return ("ok", _snap_out(_linearize(d, _copy_inputs(V[int(op[1]) - 1]), lin)))
+        if op[0] == "G":
+            return ("ok", _grammar_edit(d, op))
     except Exception as e:  # noqa: BLE001
         return ("raise", type(e).__name__, f"{type(e).__name__}: {str(e)[:300]}")
     raise ValueError(op)
@@ -518,7 +557,7 @@ def _do(d, op, V, lin):
 def _grammar_obs(g, probe):
     o = {"type": type(g).__name__, "names": tuple(sorted(g.keys())), "required": tuple(sorted(g.required_names)),
          "namespaces": val(dict(getattr(g, "to_namespaced", {}) or {}))}
-    # what the grammar accepts: the probe data, and the probe data with a string in place of the first array
+    # what the grammar accepts: a few data (complete, wrongly typed, empty, one name missing, one unknown name added)
     acc = []
     for data in probe:
         try:
@@ -528,6 +567,16 @@ def _grammar_obs(g, probe):
             acc.append(type(e).__name__)
     o["accepts"] = tuple(acc)
     return o
+
+
+def _probe_data(good):
+    probes = [good, {}]
+    arr = [k for k, v in good.items() if isinstance(v, np.ndarray)]
+    if arr:
+        probes.append({**good, arr[0]: "not an array"})
+        probes.append({k: v for k, v in good.items() if k != arr[-1]})
+    probes.append({**good, "c20_unknown_name": np.array([1.0])})
+    return probes
 
 
 def _cache_obs(c):
@@ -548,6 +597,11 @@ def _cache_obs(c):
             o["hdf_node"] = c.hdf_node_path
     except Exception as e:  # noqa: BLE001
         o["unreadable"] = f"{type(e).__name__}: {str(e)[:120]}"
+    try:  # the last *accessed* entry (not necessarily the newest one): it drives e.g. the warm start of the MDAs
+        le = c.last_entry
+        o["last_entry"] = val([dict(le.inputs or {}), dict(le.outputs or {}), {k: dict(r) for k, r in (le.jacobian or {}).items()}])
+    except Exception as e:  # noqa: BLE001
+        o["last_entry"] = f"unreadable: {type(e).__name__}"
     return o
 
 
@@ -568,12 +622,8 @@ def observe(d, V=None, with_state=True, with_duration=True, depth=0):
     """The observable state of a discipline / process, as a nested dict of comparable values (group -> ...)."""
     o = {"class": type(d).__name__, "name": d.name}
     ig, og = d.io.input_grammar, d.io.output_grammar
-    good = dict(ig.defaults)
-    probes = [good]
-    arr = [k for k, v in good.items() if isinstance(v, np.ndarray)]
-    if arr:
-        probes.append({**good, arr[0]: "not an array"})
-    o["grammar"] = {"input": _grammar_obs(ig, probes), "output": _grammar_obs(og, [])}
+    o["grammar"] = {"input": _grammar_obs(ig, _probe_data(dict(ig.defaults))),
+                    "output": _grammar_obs(og, _probe_data({k: v for k, v in d.io.data.items() if k in og and not (isinstance(v, np.ndarray) and foreign(v))}))}
     o["defaults"] = {"input": val(dict(ig.defaults)), "output": val(dict(og.defaults))}
     s = {"public": _public_scalars(d), "linearization_mode": str(getattr(d, "linearization_mode", None)),
          "diff_inputs": tuple(sorted(getattr(d, "_differentiated_input_names", ()))), "diff_outputs": tuple(sorted(getattr(d, "_differentiated_output_names", ()))),
@@ -595,6 +645,8 @@ def observe(d, V=None, with_state=True, with_duration=True, depth=0):
     if with_state:
         o["state"] = {"local_data": val(dict(d.io.data)), "jac": val({k: dict(r) for k, r in (d.jac or {}).items()} if isinstance(getattr(d, "jac", None), Mapping) else None),
                       "cache": _cache_obs(d.cache)}
+        if getattr(d, "residual_history", None) is not None:
+            o["state"]["residual_history"] = val([float(x) for x in d.residual_history])
     subs = getattr(d, "disciplines", None) if depth < 3 else None
     if subs and not isinstance(subs, Mapping):
         try:
@@ -660,7 +712,7 @@ def static_violations(oa, ob, when):
         grp = next((p for p in parts if p in _INVARIANT_OF_GROUP), parts[0] if parts else "?")
         inv = _INVARIANT_OF_GROUP.get(grp, "state-differs")
         if grp == "state" and "cache" in parts:
-            inv = "cache-content-differs"
+            inv = "cache-last-entry-differs" if any(p.startswith("last_entry") for p in parts) else "cache-content-differs"
         out.append((inv, f"{when}: {path}: original {x} != restored {y}"))
     return out
 
@@ -670,7 +722,8 @@ def _position(hist):
     i = next(k for k, op in enumerate(hist) if op in RTS)
     if i == 0:
         return "fresh"
-    return "after-linearize" if hist[i - 1].startswith("L") else "after-execute"
+    prev = hist[i - 1]
+    return "after-linearize" if prev.startswith("L") else ("after-grammar-edit" if prev.startswith("G") else "after-execute")
 
 
 def _mutate_and_check(o, r, cache_kind):
@@ -779,6 +832,8 @@ def _disc_case(case, tally):
             results = [_do(t, op, V, lin) for t in live]
             n_tr += len(live)
             r0 = results[0]
+            if op[0] == "G" and r0[0] == "raise" and len(live) == 1:
+                tally.count(f"grammar-edit-refused:{op}:{r0[1]}")
             for k, rk in enumerate(results[1:], 1):
                 if r0[0] == "raise" and rk[0] == "raise":
                     if r0[1] != rk[1]:
@@ -793,7 +848,7 @@ def _disc_case(case, tally):
                         outcome = "ok-within-iteration-tolerance"
                     else:
                         dd = diff(_val_tree(r0[1]), _val_tree(rk[1]), limit=4)
-                        bad("restored-output-differs" if op[0] == "E" else "restored-jacobian-differs", f"{op} (step {step}) on restored twin {k}: " + "; ".join(f"{p}: original {x} restored {y}" for p, x, y in dd), op=op[0])
+                        bad({"E": "restored-output-differs", "G": "grammar-differs"}.get(op[0], "restored-jacobian-differs"), f"{op} (step {step}) on restored twin {k}: " + "; ".join(f"{p}: original {x} restored {y}" for p, x, y in dd), op=op[0])
         else:
             if len(twins) > 1:
                 o, r = live[0], live[-1]
@@ -855,6 +910,11 @@ def _disc_case(case, tally):
                sample={"subject": name, "grammar": gname, "cache": cache, "hist": hist} if len(hist) == 3 else None)
     tally.traces += 1
     tally.transitions += n_tr
+    if any(inv == "cache-last-entry-differs" for inv, _, _ in found):
+        # the restored cache points at another entry: what a warm-started process computes next is a consequence
+        n_all = len(found)
+        found = [f for f in found if f[0] in ("cache-last-entry-differs", "round-trip-raises", "shared-mutable-object", "grammar-differs", "defaults-differ")]
+        tally.count("inherited_violations", n_all - len(found))
     for inv, extra, msg in found:
         sig = {"invariant": inv, **extra} if inv == "round-trip-raises" else {"invariant": inv, **base, **extra}
         tally.sets.setdefault("subjects:" + _fixed_key(sig), set()).add(name)
@@ -942,29 +1002,48 @@ def disc_cases(ctx, catalog):
 
     quick     default grammar x SimpleCache (the default policy): every word with one round-trip and <= 2 other operations (68);
               default grammar x {MemoryFull, HDF5} and every other grammar type x every cache: one round-trip and <= 1 other
-              operation (14) - followed, as always, by the probes execute(new input), linearize(v1), i.e. depth 3-4 in effect
+              operation (14) - followed, as always, by the probes execute(new input), linearize(v1), i.e. depth 3-4 in effect;
+              + SimpleCache x every grammar type: 7 grammar-edit words [use, edit, round-trip] (edit = restrict_to / rename /
+              add a name / change a default / make optional, on a grammar that has already validated data);
+              + full caches: the cache-cursor words [E1, E2, L1, RT], [E1, E2, E1, RT] (last accessed entry != newest entry)
     thorough  SimpleCache x every grammar type: every word of length <= 3 with one or two round-trips (108), plus, for the
               default grammar, every word with one round-trip and exactly 3 other operations (216, depth 4);
               default grammar x MemoryFull: the 108 words; default grammar x {HDF5, no cache}: the 68 words;
-              other grammar types x {MemoryFull, HDF5, no cache}: the 14 words
+              other grammar types x {MemoryFull, HDF5, no cache}: the 14 words;
+              + 45 grammar-edit words (edit before / after use, before / after the round-trip) and the cache-cursor words
     (an HDF5 case costs ~10x a Simple one: every cache access opens the file and talks to the manager process)
     """
     scales = list(ctx.pick(SCALESETS))
     h_one, h_short = histories(2, 1), histories(1, 1)
+    # cache-cursor words: the last *accessed* entry of a full cache differs from the newest one at the round-trip
+    cursor = lambda rts: [[*w, rt] for rt in rts for w in (["E1", "E2", "L1"], ["E1", "E2", "E1"])]  # noqa: E731
+    # grammar-edit words: a grammar that has been used, then edited, then serialized (hidden schema / validator caches)
     if ctx.thorough:
         h_main = histories(2, 2, max_len=3)
         h_deep = [h for h in histories(3, 1) if len(h) == 4]
+        g_words = ([[u, g, rt] for u in ("E1", "L1") for g in GRAMMAR_EDITS for rt in RTS] + [[g, rt] for g in GRAMMAR_EDITS for rt in RTS]
+                   + [["E1", g, rt, "E2"] for g in GRAMMAR_EDITS for rt in RTS] + [["E1", "RP", g, "E2"] for g in GRAMMAR_EDITS])
 
         def plan(default, cache):
             if cache == "simple":
-                return h_main + (h_deep if default else [])
+                return h_main + (h_deep if default else []) + g_words
+            if cache == "memF":
+                return (h_main if default else h_short) + cursor(RTS) + [["E1", g, "RP"] for g in GRAMMAR_EDITS]
             if default:
-                return h_main if cache == "memF" else h_one
+                return h_one + (cursor(RTS) if cache == "hdf" else [])
             return h_short
 
         caches = CACHES + ["none"]
     else:
-        plan = lambda default, cache: h_one if default and cache == "simple" else h_short  # noqa: E731
+        g_words = [["E1", g, "RP"] for g in GRAMMAR_EDITS] + [["E1", "GR", "RF"], ["L1", "GR", "RP"]]
+
+        def plan(default, cache):
+            if cache == "simple":
+                return (h_one if default else h_short) + g_words
+            if cache == "memF":
+                return h_short + cursor(RTS if default else ["RP"])
+            return h_short + (cursor(["RP"]) if default else [])
+
         caches = CACHES
     first = {}
     for info in catalog:
